@@ -2,10 +2,10 @@ package checks
 
 import (
 	"fmt"
-	"sync"
 	"math/rand"
 	"sort"
 	"strings"
+	"sync"
 	"testing"
 	"time"
 
@@ -105,6 +105,18 @@ func c11Pool(ev *vlib.Evidence, driver string, idx int) (nontrivial, conclusive 
 	registered := []*vlib.Identity{}
 	for i := range peers {
 		peers[i] = vlib.NewIdentity("c11peer", (idx*5+i)%23)
+		switch r.Intn(6) {
+		case 0:
+			// the same key under another spelling of its id: to the pool simply another id,
+			// registered and reported under exactly that spelling
+			cp := *peers[i]
+			cp.NodeID = strings.ToUpper(cp.NodeID)
+			peers[i] = &cp
+		case 1:
+			cp := *peers[i]
+			cp.NodeID = "0x" + cp.NodeID
+			peers[i] = &cp
+		}
 		if r.Intn(6) != 0 {
 			if !register(peers[i], r.Intn(3) != 0) {
 				return false, true, ""
@@ -184,7 +196,7 @@ func c11Pool(ev *vlib.Evidence, driver string, idx int) (nontrivial, conclusive 
 					pid, name = p.NodeID, p.Name
 				}
 				pi := ethnode.PeerInfo{ID: pid}
-				if r.Intn(2) == 0 {
+				if r.Intn(2) == 0 && len(pid) == 128 && pid == strings.ToLower(pid) {
 					// id only inside the enode URI, ID field carries a hash-like value
 					pi = ethnode.PeerInfo{ID: "deadbeef", Enode: "enode://" + pid + "@198.51.100.7:30303"}
 				}
